@@ -193,12 +193,12 @@ def validate_trace(work, trace_path, cfg="TraceApi.cfg", module="TraceApi", time
             "lines": done["lines"]}
 
 
-def run_driver(driver, progs, work, name):
+def run_driver(driver, progs, work, name, cold=False):
     pj = os.path.join(work.dir, name + ".json")
     tj = os.path.join(work.dir, name + ".ndjson")
     with open(pj, "w") as f:
         json.dump(progs, f)
-    rc, out = run([driver, "run", pj, tj], 1800)
+    rc, out = run([driver, "run", pj, tj], 1800, env=dict(os.environ, VERIF_COLD="1") if cold else None)
     if rc != 0:
         raise Infra("driver failed (rc=%d) on %s:\n%s" % (rc, name, out[-3000:]))
     return tj
@@ -233,7 +233,7 @@ def validate_programs(work, driver, progs, label, chunks=None, cfg="TraceApi.cfg
         tr = run_driver(driver, warm, work, "%s-%d" % (label, i)) if warm else None
         # "cold" programs run in a process of their own each (lazily built tables, pools and caches are in their initial state)
         for j, p in enumerate(cold):
-            tc = run_driver(driver, [p], work, "%s-%d-cold%d" % (label, i, j))
+            tc = run_driver(driver, [p], work, "%s-%d-cold%d" % (label, i, j), cold=True)
             if tr is None:
                 tr = tc
             else:
